@@ -427,9 +427,17 @@ pub fn run(sc: &Scenario, strat: &Strategy, crash_every: usize) -> Option<RunRes
             while g.status[t] == Status::Running || g.turn == Some(t) {
                 g = sched.cv.wait(g).unwrap();
             }
+            drop(g);
+            watch_end();
         };
         let grant = |t: usize| {
             let mut g = sched.m.lock().unwrap();
+            // watchdog (C21): the granted thread runs alone until its next atomic access
+            let cur = g.events.iter().rev().find_map(|e| match e {
+                Event::CallStart { t: x, text } if *x == t => Some(text.clone()),
+                _ => None,
+            });
+            watch_begin(&format!("thread {t} running alone: {}", cur.unwrap_or_else(|| "<starting>".into())));
             g.turn = Some(t);
             g.status[t] = Status::Running;
             sched.cv.notify_all();
